@@ -48,6 +48,24 @@ def _merges(fn, target: str):
     return out
 
 
+def _prefix_vars(fn):
+    """the instance-name parameter of flatten_symbols and the locals computed from it (the instance prefix)"""
+    name_param = fn.args.args[1].arg
+    out = {name_param}
+    for n in walk_local(fn):
+        if isinstance(n, ast.Assign) and isinstance(n.targets[0], ast.Name) and any(is_name(x, name_param) for x in ast.walk(n.value)):
+            out.add(n.targets[0].id)
+    return out
+
+
+def _prefix_test(test, pv) -> bool:
+    """`p`, `p != ""` for an instance-prefix variable p"""
+    if isinstance(test, ast.Name):
+        return test.id in pv
+    return isinstance(test, ast.Compare) and len(test.ops) == 1 and isinstance(test.ops[0], ast.NotEq) and isinstance(test.left, ast.Name) \
+        and test.left.id in pv and isinstance(test.comparators[0], ast.Constant) and test.comparators[0].value == ""
+
+
 def _alloc_var(fn, clsname):
     for n in walk_local(fn):
         if isinstance(n, ast.Assign) and isinstance(n.value, ast.Call) and (call_name(n.value) or "").endswith(clsname) \
@@ -116,7 +134,8 @@ def r07_1(ctx, rep):
                "a flattened sub-component's `%s` must be merged into the flat class's `%s` (found target %r)" % (f, f, m.get((sub, f))))
     # (iii) pipeline of the class's own sections
     cls_param = fn.args.args[0].arg
-    prefix_var = "instance_prefix"
+    pv = _prefix_vars(fn)
+    prefix_var = "/".join(sorted(pv))
     tag = {}
     sinks = {}
 
@@ -126,7 +145,7 @@ def r07_1(ctx, rep):
 
     def renamed(call, elemvar):
         return isinstance(call, ast.Call) and is_name(call.func, "flatten_component_refs") and len(call.args) >= 3 \
-            and is_name(call.args[0], flat) and is_name(call.args[1], elemvar) and is_name(call.args[2], prefix_var)
+            and is_name(call.args[0], flat) and is_name(call.args[1], elemvar) and isinstance(call.args[2], ast.Name) and call.args[2].id in pv
 
     def visit(stmts):
         for st in stmts:
@@ -222,9 +241,9 @@ def r07_2(ctx, rep):
     sites = _strip_sites(cfg, fn)
     if not sites:
         raise MechanismMissing(R, "no statement removing keywords from <symbol>.prefixes found in flatten_symbols")
-    PREFIX_TESTS = ("instance_prefix", "instance_name", 'instance_name != ""', "instance_name != ''", 'instance_prefix != ""', "instance_prefix != ''")
+    pv = _prefix_vars(fn)
     for node, owner, kws, text in sites:
-        guards = cfg.dominated_by(node.id, lambda x: x.kind == "assume" and x.taken and norm(x.ast) in PREFIX_TESTS)
+        guards = cfg.dominated_by(node.id, lambda x: x.kind == "assume" and x.taken and _prefix_test(x.ast, pv))
         rep.ob(R, site, "guard of " + text[:60], bool(guards),
                "prefix stripping must be dominated by the test that the instance prefix is non-empty (top-level inputs/outputs keep their prefix)")
     kws_all = sorted({k for _n, _o, kws, _t in sites for k in (kws or ["?"])})
@@ -255,7 +274,7 @@ def r07_2(ctx, rep):
                 break
             p_ = getattr(p_, "_parent", None)
     # with an empty prefix nothing needs stripping: those branches are not obligations
-    avoid |= {x.id for x in cfg.nodes if x.kind == "assume" and not x.taken and norm(x.ast) in PREFIX_TESTS}
+    avoid |= {x.id for x in cfg.nodes if x.kind == "assume" and not x.taken and _prefix_test(x.ast, pv)}
     for k, r in enumerate(regs, 1):
         if r.id not in cfg.reachable(entry):
             continue
@@ -279,12 +298,14 @@ def r07_3(ctx, rep):
     rep.ob(R, TREE + ":CLASS_SEPARATOR", "CLASS_SEPARATOR", literal(sep) == ".", "instance paths are dotted")
     name_param = fn.args.args[1].arg
     pref_ok = False
+    pvar = None
     for n in walk_local(fn):
-        if isinstance(n, ast.If) and norm(n.test) in ('%s != ""' % name_param, "%s != ''" % name_param, name_param):
-            b = [norm(s) for s in n.body]
-            e = [norm(s) for s in n.orelse]
-            if "instance_prefix = %s + CLASS_SEPARATOR" % name_param in b and "instance_prefix = %s" % name_param in e:
-                pref_ok = True
+        if isinstance(n, ast.If) and _prefix_test(n.test, {name_param}):
+            b = {s.targets[0].id: norm(s.value) for s in n.body if isinstance(s, ast.Assign) and isinstance(s.targets[0], ast.Name)}
+            e = {s.targets[0].id: norm(s.value) for s in n.orelse if isinstance(s, ast.Assign) and isinstance(s.targets[0], ast.Name)}
+            for v in b:
+                if b[v] == "%s + CLASS_SEPARATOR" % name_param and e.get(v) in (name_param, "''"):
+                    pref_ok, pvar = True, v
     rep.ob(R, site, "instance_prefix", pref_ok, "instance_prefix must be <instance name> + CLASS_SEPARATOR, or empty at top level")
     loop = None
     for n in walk_local(fn):
@@ -295,7 +316,7 @@ def r07_3(ctx, rep):
         raise MechanismMissing(R, "loop over class_.symbols.items() not found")
     kvar, svar = loop.target.elts[0].id, loop.target.elts[1].id
     body = [norm(s) for s in loop.body]
-    rep.ob(R, site, "flat name", "%s.name = instance_prefix + %s" % (svar, kvar) in body,
+    rep.ob(R, site, "flat name", "%s.name = %s + %s" % (svar, pvar, kvar) in body,
            "the symbol's flat name must be instance_prefix + its key in the class's symbol table")
     alias = {svar}
     for s in loop.body:
@@ -315,8 +336,14 @@ def r07_3(ctx, rep):
            "elementary symbols (ComponentRef type and builtin-derived types) must be stored in flat_class.symbols under their flat name (found %d stores)" % len(regs))
     # reference renaming composes the same way
     fn2 = ctx.func(TREE, "ComponentRefFlattener.enterComponentRef", R)
-    b2 = [norm(s) for s in walk_local(fn2) if isinstance(s, (ast.Assign, ast.AugAssign))]
-    ok = "new_name = self.instance_prefix + tree.name" in b2 and "new_name += CLASS_SEPARATOR + c.name" in b2
+    tparam = fn2.args.args[1].arg
+    nvar = None
+    for s in walk_local(fn2):
+        if isinstance(s, ast.Assign) and isinstance(s.targets[0], ast.Name) and norm(s.value) == "self.instance_prefix + %s.name" % tparam:
+            nvar = s.targets[0].id
+    ok = nvar is not None and any(
+        isinstance(s, ast.AugAssign) and is_name(s.target, nvar) and isinstance(s.op, ast.Add) and isinstance(s.value, ast.BinOp) and isinstance(s.value.op, ast.Add)
+        and is_name(s.value.left, "CLASS_SEPARATOR") and isinstance(s.value.right, ast.Attribute) and s.value.right.attr == "name" for s in walk_local(fn2))
     rep.ob(R, TREE + ":ComponentRefFlattener.enterComponentRef", "reference name", ok,
            "a reference a.b.c inside instance p must be looked up as p.a.b.c (prefix + names joined by CLASS_SEPARATOR)")
 
